@@ -316,6 +316,33 @@ func c24Setup(t *testing.T, b *world.Backend, redis bool) (*world.Snap, error) {
 	return b.Save(), nil
 }
 
+// c24Transient recognises transport errors of the loopback redis connection (its read deadline
+// runs on the real clock, so a badly overloaded machine can trip it). They say nothing about the
+// property: the call is repeated, and a world that still cannot be queried is skipped with the
+// run marked as not exhaustive.
+func c24Transient(err error) bool {
+	if err == nil {
+		return false
+	}
+	m := err.Error()
+	for _, s := range []string{"i/o timeout", "connection reset", "connection refused", "broken pipe", "use of closed network connection"} {
+		if strings.Contains(m, s) {
+			return true
+		}
+	}
+	return false
+}
+
+func c24Retry(f func() error) error {
+	var err error
+	for i := 0; i < 5; i++ {
+		if err = f(); !c24Transient(err) {
+			return err
+		}
+	}
+	return err
+}
+
 type c24W struct {
 	c24Triple
 	ID string
@@ -368,7 +395,13 @@ func c24One(ctx context.Context, c *vcore.Ctx, inst *world.Instance, cc *c24Case
 	var ws []c24W
 	for i, t := range cc.World {
 		w := c24W{c24Triple: t, ID: c24ID(i)}
-		err := st.AddWorkload(ctx, &coretypes.Workload{ID: w.ID, Name: utils.MakeWorkloadName(t.App, t.Entry, c24Ident(i)), Podname: "p", Nodename: t.Node}, nil)
+		err := c24Retry(func() error {
+			return st.AddWorkload(ctx, &coretypes.Workload{ID: w.ID, Name: utils.MakeWorkloadName(t.App, t.Entry, c24Ident(i)), Podname: "p", Nodename: t.Node}, nil)
+		})
+		if c24Transient(err) {
+			c.CapHit("transport error of the redis connection (overloaded machine): world skipped")
+			return
+		}
 		if err != nil {
 			c.Eval()
 			viol("add", "workload-rejected", vcore.JSON(t), "AddWorkload failed: "+err.Error())
@@ -412,6 +445,10 @@ func c24One(ctx context.Context, c *vcore.Ctx, inst *world.Instance, cc *c24Case
 	judgeSet := func(op, a, e, n string, got []string, err error) {
 		c.Eval()
 		q := fmt.Sprintf("(%q,%q,%q)", a, e, n)
+		if c24Transient(err) {
+			c.CapHit("transport error of the redis connection (overloaded machine): query skipped")
+			return
+		}
 		if err != nil {
 			viol(op, "query-failed", q, "error: "+err.Error())
 			return
@@ -463,7 +500,8 @@ func c24One(ctx context.Context, c *vcore.Ctx, inst *world.Instance, cc *c24Case
 	for _, a := range append([]string{""}, qa...) {
 		for _, e := range append([]string{""}, qe...) {
 			for _, n := range append([]string{""}, qn...) {
-				list, err := st.ListWorkloads(ctx, a, e, n, 0, nil)
+				var list []*coretypes.Workload
+				err := c24Retry(func() (err error) { list, err = st.ListWorkloads(ctx, a, e, n, 0, nil); return })
 				var ids []string
 				for _, w := range list {
 					ids = append(ids, w.ID)
@@ -477,7 +515,12 @@ func c24One(ctx context.Context, c *vcore.Ctx, inst *world.Instance, cc *c24Case
 	judgeCount := func(op, a, e string, perTriple int) {
 		c.Eval()
 		q := fmt.Sprintf("(%q,%q)", a, e)
-		got, err := st.GetDeployStatus(ctx, a, e)
+		var got map[string]int
+		err := c24Retry(func() (err error) { got, err = st.GetDeployStatus(ctx, a, e); return })
+		if c24Transient(err) {
+			c.CapHit("transport error of the redis connection (overloaded machine): query skipped")
+			return
+		}
 		if err != nil {
 			viol(op, "query-failed", q, "error: "+err.Error())
 			return
@@ -605,7 +648,14 @@ func c24One(ctx context.Context, c *vcore.Ctx, inst *world.Instance, cc *c24Case
 
 	// 4. processing records count per (app, entry) too
 	for i, w := range ws {
-		if err := st.CreateProcessing(ctx, &coretypes.Processing{Appname: w.App, Entryname: w.Entry, Nodename: w.Node, Ident: "proc" + c24Ident(i)}, 2); err != nil {
+		err := c24Retry(func() error {
+			return st.CreateProcessing(ctx, &coretypes.Processing{Appname: w.App, Entryname: w.Entry, Nodename: w.Node, Ident: "proc" + c24Ident(i)}, 2)
+		})
+		if c24Transient(err) {
+			c.CapHit("transport error of the redis connection (overloaded machine): world skipped")
+			return
+		}
+		if err != nil {
 			c.Eval()
 			viol("processing", "create-failed", vcore.JSON(w.c24Triple), err.Error())
 			return
